@@ -28,4 +28,6 @@ for gn in (0, 4):
     add("growth_n%d" % gn, "h_growth", {"GN": gn}, ["hwloc_internal_cpukinds_register (realloc sizing)", "hwloc_flsl"],
         {"quick": {"defines": {}, "unwind": 12, "unwindset": {"realloc.0": 60}, "bounds": "N=%d existing two-PU kinds in an exactly-sized table; registered cpuset symbolic" % gn}}, checks="safety")
     HARNESSES[-1]["tiers"]["thorough"] = HARNESSES[-1]["tiers"]["quick"]
+    if gn == 4:      # growth from a 4-entry table: no verdict in 20 min (symbolic target index into the grown table): stretch
+        HARNESSES[-1]["tiers"] = {"thorough": dict(HARNESSES[-1]["tiers"]["quick"], timeout=1200)}; HARNESSES[-1]["core"] = False; HARNESSES[-1]["mem_gb"] = 8
 OUTSIDE = ["multi-word or infinite kind cpusets", "dup / XML round trip of the table (C12, C05)", "string ownership of info pairs", "allocation failure"]
